@@ -116,6 +116,8 @@ def generate(seed: int, tier: str = "quick") -> dict:
             add(b, ph, "aave.read", {"view": rp.choice(["health_factor", "max_ltv", "liquidation_threshold"])})
         faults.append({"kind": "same_bar:borrow_repay_with_collateral_" + follow, "bar": b})
     program = [p for _, p in sorted(enumerate(program), key=lambda e: (e[1]["bar"], PHASES.index(e[1]["phase"]), e[0]))]
+    if A.add_bystander(R.sub(seed, "bystander"), world) is not None:
+        faults.append({"kind": "second_market_of_the_same_kind_registered_first"})
     return {"property": ID, "seed": seed, "world": world, "program": program, "faults": faults}
 
 
@@ -263,12 +265,12 @@ def shrink_candidates(scenario):
             c = copy.deepcopy(scenario)
             c["world"]["prices"][t] = [series[0]] * len(series)
             yield c
-    mw = w["markets"][0]
+    mw = A.market_of(w)
     for col in ("liquidity_index", "variable_borrow_index"):
         for t, series in mw.get(col, {}).items():
             if len(set(series)) > 1:
                 c = copy.deepcopy(scenario)
-                c["world"]["markets"][0][col][t] = [series[0]] * len(series)
+                A.market_of(c["world"])[col][t] = [series[0]] * len(series)
                 yield c
     for i, o in enumerate(scenario["program"]):
         a = o.get("a", {})
